@@ -1,4 +1,4 @@
-import QbVerif.Model.Loop
+import QbVerif.Model.LoopRun
 import QbVerif.Driver.Util
 
 /-! Driver `loop` (C08): the op lines of harness/loop/loop_drv.c, same output format.
@@ -103,21 +103,22 @@ def finish (s0 s1 : St) (evs : List Ev) : St × List String :=
   | none, some w => (s1, outs ++ [s!"SAN:{w}"])
   | _, _ => (s1, outs)
 
+/-- every parsed line is executed by `St.cmd` (Model/LoopRun.lean), the function the theorems are about -/
 def step (cfg : Cfg) (st : St) (ws : List String) : St × List String :=
   let _ := cfg
   if st.fault.isSome then (st, []) else
   match ws with
   | "script" :: rest =>
     match parseScript rest with
-    | some (id, sc) => if id < MAXID then ({ st with scripts := assoc st.scripts id sc }, ["ok"]) else (st, ["bad-op"])
+    | some (id, sc) => if id < MAXID then ((st.cmd (.script id sc)).1, ["ok"]) else (st, ["bad-op"])
     | none => (st, ["bad-op"])
   | "iterate" :: rest =>
-    let (s1, evs) := st.iterate (parseReady rest)
+    let (s1, evs) := st.cmd (.iterate (parseReady rest))
     finish st s1 evs
   | _ =>
     match parseOp ws with
     | none => (st, ["bad-op"])
-    | some op => let (s1, evs) := st.api false op; finish st s1 evs
+    | some op => let (s1, evs) := st.cmd (.op op); finish st s1 evs
 
 def main (args : List String) : IO UInt32 := do
   let cfg : Cfg := if args.contains "--orig" then { fixSigDel := false, fixAddFail := false }
